@@ -101,6 +101,20 @@ class LineHooks(Hooks):
         if name == "connect":
             ev.events.append(("connect", base.label))
             return None
+        if name in ("_register_line", "_unregister_line") and \
+                "_records" not in base.attrs and len(args) == 1 and (
+                    base.label == "gfa" or base.attrs.get("__gfa__")):
+            # a Gfa the rule gave no record table: registration is an event
+            # (and an entry of the rule's `registry` list when it keeps one)
+            lab = args[0].label if isinstance(args[0], Abs) else args[0]
+            ev.events.append((name, lab))
+            reg = base.attrs.get("registry")
+            if isinstance(reg, list):
+                if name == "_register_line":
+                    reg.append(lab)
+                elif lab in reg:
+                    reg.remove(lab)
+            return None
         if base.attrs.get("__gfa__"):
             if name == "segment":
                 arg = args[0]
